@@ -80,6 +80,7 @@ type World struct {
 	notifyDropped bool
 	TeardownWait  time.Duration // how long a step waits for the end of a teardown (longer when the scheduler stalls it)
 	connBefore    string
+	dpTimeouts    int
 	ReportCopies  int    // BESS: a report is written this many times back to back on the notify socket (0, 1: once)
 	ConnTruth     string // "down": the harness itself stopped the datapath server a while ago; Assoc records that instead of the agent's own view
 	DdnMs         int           // notification interval set through the hook (0 = the code's 20 s)
@@ -205,6 +206,15 @@ func (w *World) Close() {
 }
 
 func (w *World) emit(m map[string]interface{}) {
+	// the agent gives the BESS datapath one second per request; when that budget runs out (a machine far too loaded) it logs
+	// so and goes on as if the request had been programmed.  The step is marked: a shard with such a step is run again.
+	if w.Agent != nil {
+		if n := strings.Count(w.Agent.Stderr(), "unable to make GRPC calls"); n > w.dpTimeouts {
+			w.dpTimeouts = n
+			m["dpTimeout"] = true
+		}
+	}
+
 	m["run"] = w.Run
 	b, err := json.Marshal(m)
 	if err != nil {
